@@ -226,18 +226,18 @@ breaker('C03', 'check-current-only-older', 'C03.R4', BSPY,
         'checkCurrentSerialInTransaction',
         'if committed_tid != serial:', 'if committed_tid < serial:')
 breaker('C03', 'store-objects-fresh-serial', 'C03.R5', CONNPY,
-        'Connection._store_objects',
+        'Connection._store_objects_of',
         's = self._storage.store(oid, serial, p, \'\', transaction)',
         's = self._storage.store(oid, self._storage.getTid(oid) if serial != z64 else serial, p, \'\', transaction)')
 breaker('C03', 'store-objects-modified-after-store', 'C03.R6', CONNPY,
-        'Connection._store_objects',
+        'Connection._store_objects_of',
         '''            else:
                 self._modified.append(oid)
 
             p = writer.serialize(obj)''',
         '''            p = writer.serialize(obj)''')
 breaker('C03', 'store-objects-drop-dependency-in-savepoint', 'C03.R7', CONNPY,
-        'Connection._store_objects',
+        'Connection._store_objects_of',
         '''            if self._savepoint_storage is None:
                 self._readCurrent.pop(oid, None)''',
         '''            self._readCurrent.pop(oid, None)''')
@@ -262,7 +262,7 @@ twin('C03', 'ms-store-rename-local', MSPY, 'MappingStorage.store',
                 raise ZODB.POSException.ConflictError(
                     oid=oid, serials=(newest, serial), data=data)''')
 twin('C03', 'store-objects-savepoint-test-inverted', CONNPY,
-     'Connection._store_objects',
+     'Connection._store_objects_of',
      '''            if self._savepoint_storage is None:
                 self._readCurrent.pop(oid, None)''',
      '''            if self._savepoint_storage is not None:
@@ -393,7 +393,7 @@ breaker('C13', 'pack-removes-unlisted', 'C13.R5', FSPY,
                 handle_dir(os.path.dirname(os.path.dirname(fshelper.temp_dir)))
                 assert not os.path.exists(path)''')
 breaker('C13', 'store-objects-leak-working-file', 'C13.R6', CONNPY,
-        'Connection._store_objects',
+        'Connection._store_objects_of',
         '''                    if os.path.exists(blobfilename):
                         os.remove(blobfilename)
                     raise''', '''                    raise''')
@@ -405,7 +405,7 @@ twin('C13', 'storeblob-helper-name', BLOBPY, 'BlobStorageMixin._blob_storeblob',
      '''            targetname = self.fshelper.getBlobFilename(oid, serial)''',
      '''            helper = self.fshelper
             targetname = helper.getBlobFilename(oid, serial)''')
-twin('C13', 'store-objects-unlink', CONNPY, 'Connection._store_objects',
+twin('C13', 'store-objects-unlink', CONNPY, 'Connection._store_objects_of',
      '''                    if os.path.exists(blobfilename):
                         os.remove(blobfilename)
                     raise''', '''                    try:
@@ -1551,3 +1551,60 @@ twin('C18', 'full-backup-rename-pos', RZPY, 'do_full_backup',
 ''', '''    end_of_data = fs.getSize()
     pos = end_of_data
 ''')
+
+# ------------------------------------------------------- more C01 / twins
+breaker('C01', 'vote-no-seek-to-committed-end', 'C01.R3', FSPY,
+        'FileStorage.tpc_vote',
+        '''            self._file.seek(self._pos)
+            tl = self._thl + dlen''', '''            tl = self._thl + dlen''')
+breaker('C01', 'vote-seek-to-end-of-file', 'C01.R3', FSPY,
+        'FileStorage.tpc_vote',
+        'self._file.seek(self._pos)\n            tl =',
+        'self._file.seek(0, 2)\n            tl =')
+twin('C20', 'new-oid-explicit-acquire', BSPY, 'BaseStorage.set_max_oid',
+     '''        with self._lock:
+            if possible_new_max_oid > self._oid:
+                self._oid = possible_new_max_oid''',
+     '''        self._lock_acquire()
+        try:
+            if possible_new_max_oid > self._oid:
+                self._oid = possible_new_max_oid
+        finally:
+            self._lock_release()''')
+twin('C08', 'pack-flag-explicit-acquire', FSPY, 'FileStorage.pack',
+     '''        with self._lock:
+            if self._pack_is_in_progress:
+                raise FileStorageError('Already packing')
+            self._pack_is_in_progress = True''',
+     '''        self._lock.acquire()
+        try:
+            if self._pack_is_in_progress:
+                raise FileStorageError('Already packing')
+            self._pack_is_in_progress = True
+        finally:
+            self._lock.release()''')
+twin('C05', 'bs-finish-explicit-lock', BSPY, 'BaseStorage.tpc_abort',
+     '''        with self._lock:
+
+            if transaction is not self._transaction:
+                return
+
+            try:
+                self._abort()
+                self._clear_temp()
+                self._transaction = None
+            finally:
+                self._commit_lock_release()''',
+     '''        self._lock_acquire()
+        try:
+            if transaction is not self._transaction:
+                return
+
+            try:
+                self._abort()
+                self._clear_temp()
+                self._transaction = None
+            finally:
+                self._commit_lock_release()
+        finally:
+            self._lock_release()''')
